@@ -74,7 +74,7 @@ def filt_ok(E, st, d, src, mask_pred):
 
 
 # ------------------------------------------------------------------------------------------ SklearnClassifier._fit (C12)
-def unit_skl_clf_fit(fit_function, weights):
+def unit_skl_clf_fit(fit_function, weights, fitted_before=False):
     def setup(E, st):
         n, d = z3.Int("n"), z3.Int("d")
         st.assume(n >= 0, d >= 1)
@@ -83,8 +83,11 @@ def unit_skl_clf_fit(fit_function, weights):
         sw = st.alloc(ArrData((n,), fresh_sel("w", "f"), "f")) if weights else None
         est = st.alloc(ObjData("__estimator__", {"__open__": True}))
         ml = Opaque("missing_label")
-        selfo = st.alloc(ObjData("SklearnClassifier", {"estimator": est, "classes": Opaque("classes"), "missing_label": ml,
-                                                       "cost_matrix": None, "random_state": Opaque("random_state"), "__open__": True}))
+        fields = {"estimator": est, "classes": Opaque("classes"), "missing_label": ml, "cost_matrix": None, "random_state": Opaque("random_state"),
+                  "__open__": True}
+        if fitted_before:       # the classifier has been fitted successfully before (partial_fit continues from that model)
+            fields.update(is_fitted_=True, estimator_=st.alloc(ObjData("__estimator__", {"__open__": True})))
+        selfo = st.alloc(ObjData("SklearnClassifier", fields))
         return {"args": [selfo, fit_function, X, y], "kwargs": {"sample_weight": sw}, "X": X, "y": y, "sw": sw, "self": selfo, "n": n}
 
     def validate_contract(E, st, recv, args, kw, node):
@@ -159,6 +162,17 @@ def unit_skl_clf_fit(fit_function, weights):
                                                                                           swa.filter_of[1] is Xa.filter_of[1] or True))
                 if fit_function == "partial_fit":
                     E.oblige("C11.partial_fit_receives_classes", st, z3.BoolVal("classes" in kw))
+            if fit_function == "partial_fit" and not fits and "_label_counts" not in od.fields:
+                # the early return of partial_fit: an already fitted classifier and a batch without any label -- the model learned so far is
+                # kept untouched (no fit call, no new estimator_, no new label counts); the path is taken ONLY for such a batch
+                i = z3.Int("i")
+                y0 = st.get(ctx["y"])
+                ml = od.fields["missing_label"]
+                E.oblige("C12.model_is_kept_only_for_a_batch_without_labels", st,
+                         z3.ForAll([i], z3.Implies(z3.And(0 <= i, i < n), MISSING(y0.sel(i).sym, ml.sym))))
+                E.oblige("C12.model_is_kept.no_attribute_of_the_model_is_rewritten", st,
+                         z3.BoolVal(not any(ev[0] == "setattr" and ev[2] in ("estimator_", "is_fitted_", "_label_counts") for ev in st.events)))
+                continue
             # fallback label counts: one count per class index, over labeled rows only
             lc = od.fields.get("_label_counts")
             lcd = st.get(lc) if isinstance(lc, Ref) else None
@@ -166,7 +180,7 @@ def unit_skl_clf_fit(fit_function, weights):
             E.oblige("C11.label_counts_has_one_entry_per_class", st,
                      z3.BoolVal(False) if not isinstance(lcd, ListData) or K is None else to_int(lcd.n) == K)
         E.oblige("some_path_fits_the_estimator", [], z3.BoolVal(fitted_paths > 0))
-    return se_unit(f"classifiers.SklearnClassifier._fit.{fit_function}.{'weights' if weights else 'noweights'}", FC, "SklearnClassifier._fit",
+    return se_unit(f"classifiers.SklearnClassifier._fit.{fit_function}.{'weights' if weights else 'noweights'}{'.fitted_before' if fitted_before else ''}", FC, "SklearnClassifier._fit",
                    "SklearnClassifier", setup, post, lib_factory=lib)
 
 
@@ -367,6 +381,8 @@ UNITS = {}
 for _ff in ("fit", "partial_fit"):
     for _w in (False, True):
         UNITS[f"C12.C11.SklearnClassifier._fit.{_ff}.{'w' if _w else 'nw'}"] = unit_skl_clf_fit(_ff, _w)
+for _w in (False, True):
+    UNITS[f"C12.C11.SklearnClassifier._fit.partial_fit.{'w' if _w else 'nw'}.fitted_before"] = unit_skl_clf_fit("partial_fit", _w, fitted_before=True)
 UNITS["C11.SkactivemlClassifier.predict"] = unit_base_predict()
 for _c in (False, True):
     for _f in (True, False):
